@@ -45,6 +45,9 @@ def build(desc):
     for s in case["strategies"]:
         s["max_trade_count"] = rng.choice((1, 2, 3, 1e6))
         s["max_live_trade_count"] = rng.choice((1, 1, 2, 3, 1e6))
+        if desc["idx"] % 10 == 3:
+            # a limit of zero: the strategy may not open a trade at all (watch-only)
+            s["max_trade_count" if desc["idx"] % 20 == 3 else "max_live_trade_count"] = 0
         s["multi_order_trades"] = rng.random() < 0.5
         rs = rng.choice((0.0, 0.0, 0.04, 1.0, 5.0, 60.0)) if desc["idx"] % 9 != 7 else rng.choice((120.0, 300.0, 3600.0))
         ps = rng.choice((0.0, 0.0, 0.04, 1.0, 5.0)) if desc["idx"] % 9 != 7 else rng.choice((0.0, 120.0, 300.0))
